@@ -302,7 +302,15 @@ pub mod cluster {
         keyspaces: &[KeyspaceSpec],
         tablet_tables: &HashMap<String, Vec<String>>,
     ) -> ClusterState {
-        build_state(None, nodes, keyspaces, tablet_tables, &HashMap::new()).await
+        build_state(
+            None,
+            nodes,
+            keyspaces,
+            tablet_tables,
+            &HashMap::new(),
+            false,
+        )
+        .await
     }
 
     /// As `cluster_from_topology_with_tablets`, plus materialized views per tablet keyspace.
@@ -312,7 +320,7 @@ pub mod cluster {
         tablet_tables: &HashMap<String, Vec<String>>,
         tablet_views: &HashMap<String, Vec<String>>,
     ) -> ClusterState {
-        build_state(None, nodes, keyspaces, tablet_tables, tablet_views).await
+        build_state(None, nodes, keyspaces, tablet_tables, tablet_views, false).await
     }
 
     /// A metadata refresh: `previous.new_updated(metadata, ..)` with the new topology / keyspaces
@@ -330,6 +338,7 @@ pub mod cluster {
             keyspaces,
             tablet_tables,
             &HashMap::new(),
+            false,
         )
         .await
     }
@@ -348,6 +357,7 @@ pub mod cluster {
             keyspaces,
             tablet_tables,
             tablet_views,
+            false,
         )
         .await
     }
@@ -365,6 +375,45 @@ pub mod cluster {
         }
         let state = previous
             .new_with_updated_topology(peers, &node_config, Some(&RejectAll))
+            .await;
+        for spec in nodes {
+            if let Some(node) = state.known_nodes.get(&spec.host_id) {
+                node.verif_override_state(spec.enabled, spec.connected);
+            }
+        }
+        state
+    }
+
+    /// As `cluster_refresh`, but with a host filter that accepts every peer and without resetting
+    /// the state overrides of `previous`' nodes: nodes enabled by override take the accepted-node
+    /// arms of `calculate_new_topology` (reuse / `inherit_with_ip_changed`), changed and new nodes get
+    /// a real `Node::new` (its pool never connects: nothing listens on 127.0.x.y:9042).
+    pub async fn cluster_refresh_accepting(
+        previous: &ClusterState,
+        nodes: &[NodeSpec],
+        keyspaces: &[KeyspaceSpec],
+        tablet_tables: &HashMap<String, Vec<String>>,
+    ) -> ClusterState {
+        build_state(
+            Some(previous),
+            nodes,
+            keyspaces,
+            tablet_tables,
+            &HashMap::new(),
+            true,
+        )
+        .await
+    }
+
+    /// As `cluster_refresh_topology`, accepting every peer (see `cluster_refresh_accepting`).
+    pub async fn cluster_refresh_topology_accepting(
+        previous: &ClusterState,
+        nodes: &[NodeSpec],
+    ) -> ClusterState {
+        let peers = peers_of(nodes);
+        let node_config = node_config();
+        let state = previous
+            .new_with_updated_topology(peers, &node_config, None)
             .await;
         for spec in nodes {
             if let Some(node) = state.known_nodes.get(&spec.host_id) {
@@ -414,6 +463,7 @@ pub mod cluster {
         keyspaces: &[KeyspaceSpec],
         tablet_tables: &HashMap<String, Vec<String>>,
         tablet_views: &HashMap<String, Vec<String>>,
+        accepting: bool,
     ) -> ClusterState {
         let peers = peers_of(nodes);
         let keyspaces = keyspaces
@@ -466,17 +516,20 @@ pub mod cluster {
             client_routes: None,
         };
         let node_config = node_config();
+        let host_filter: Option<&dyn HostFilter> = if accepting { None } else { Some(&RejectAll) };
         let state = match previous {
-            None => ClusterState::new(metadata, &node_config, Some(&RejectAll)).await,
+            None => ClusterState::new(metadata, &node_config, host_filter).await,
             Some(prev) => {
                 // `calculate_new_topology` keeps a host-filter-rejected node only if it is not
                 // enabled; drop the overrides first so that unchanged nodes keep their objects
-                // (they are re-imposed on the new state below).
-                for node in prev.known_nodes.values() {
-                    node.verif_override_state(false, false);
+                // (they are re-imposed on the new state below). With an accepting filter the
+                // overrides stay: nodes enabled by override take the accepted-node reuse arm.
+                if !accepting {
+                    for node in prev.known_nodes.values() {
+                        node.verif_override_state(false, false);
+                    }
                 }
-                prev.new_updated(metadata, &node_config, Some(&RejectAll))
-                    .await
+                prev.new_updated(metadata, &node_config, host_filter).await
             }
         };
         for spec in nodes {
